@@ -10,16 +10,17 @@ Verdict(e) ==
        ELSE IF e.back # e.v THEN "pcr-round-trip"
        ELSE ""
   ELSE IF e.op = "extpcr" THEN
-       IF e.v # DecPCR(e.bytes) THEN "pcr-decode" ELSE ""
+       IF e.v # DecPCR(SubSeq(e.bytes, 1, 6)) THEN "pcr-decode" ELSE ""
   ELSE IF e.op = "inspts" THEN
        IF ~IsPtsValue(e.v) \/ Len(e.prior) # 7 THEN "harness-bad-input"
        ELSE IF ~IsEncPTS(SubSeq(e.after, 1, 5), e.v) THEN "pts-bytes"
        ELSE IF SubSeq(e.after, 6, 7) # SubSeq(e.prior, 6, 7) THEN "pts-wrote-beyond-field"
        ELSE IF e.back_gots # e.v \/ e.back_pes # e.v THEN "pts-round-trip"
+       ELSE IF e.back_gots_whole # e.v \/ e.back_pes_whole # e.v THEN "pts-round-trip-from-longer-slice"
        ELSE ""
   ELSE IF e.op = "exttime" THEN
-       IF e.v_gots # DecPTS(e.bytes) THEN "pts-decode-gots"
-       ELSE IF e.v_pes # DecPTS(e.bytes) THEN "pts-decode-pes"
+       IF e.v_gots # DecPTS(SubSeq(e.bytes, 1, 5)) THEN "pts-decode-gots"
+       ELSE IF e.v_pes # DecPTS(SubSeq(e.bytes, 1, 5)) THEN "pts-decode-pes"
        ELSE ""
   ELSE IF e.op = "e2e_withpes" THEN
        \* Create(pid, WithPUSI, WithPES(v)): payload 00 00 01 sid len len flags flags hlen PTS(5) ... at bytes 5.. of the packet
